@@ -154,6 +154,44 @@ def write_soils(ex, soils):
                         ft.write("%s 0.40 ULS %02d %d %02d 10      00         29 19 45 26 63 11 00  20   00       \n" % (so["sid"], u, c, st))
 
 
+def write_weather(ex, rnd):
+    """weather scenarios next to weather/historical: 'radgap' = global radiation missing (none value 999.9 of the
+    example configs) in runs of 1, 2 and 5 days, also on the first and last day of the file; 'sunonly' = no globrad
+    column at all, a sunshine-hours column instead"""
+    src = os.path.join(ex, "weather", "historical")
+    info = {}
+    for scen in ("radgap", "sunonly"):
+        dst = os.path.join(ex, "weather", scen)
+        os.makedirs(dst, exist_ok=True)
+        for fn in sorted(os.listdir(src)):
+            if not fn.endswith(".csv"):
+                continue
+            lines = open(os.path.join(src, fn)).read().split("\n")
+            hdr = lines[0].split(",")
+            if "globrad" not in hdr:
+                continue
+            gi = hdr.index("globrad")
+            rows = [ln.split(",") for ln in lines[2:] if ln.strip()]
+            if scen == "radgap":
+                gaps = {1: 0, 2: 0, 5: 0}
+                starts = [0, len(rows) - 1] + [rnd.randrange(10, min(len(rows), 1800) - 10) for _ in range(60)]
+                for k, st in enumerate(starts):
+                    ln_ = 1 if k < 2 else (1, 2, 5)[k % 3]
+                    for j in range(st, min(st + ln_, len(rows))):
+                        rows[j][gi] = "999.9"
+                    gaps[ln_] += 1
+                info[fn] = gaps
+                out = lines[:2] + [",".join(r) for r in rows]
+            else:
+                hdr2 = list(hdr); hdr2[gi] = "sunhours"
+                units = lines[1].split(","); units[gi] = "h"
+                for r in rows:
+                    r[gi] = "%.1f" % min(15.0, max(0.0, float(r[gi]) / 2))
+                out = [",".join(hdr2), ",".join(units)] + [",".join(r) for r in rows]
+            open(os.path.join(dst, fn), "w").write("\n".join(out) + "\n")
+    return info
+
+
 def plan_runs(ctx):
     """(examples dir, [{line, soil or None}])"""
     import json, random
@@ -163,16 +201,27 @@ def plan_runs(ctx):
         return ex, json.load(open(mark))
     nl, endy = (8, 2000) if ctx.thorough else (3, 1984)
     plan = []
+    csv_weather = lambda ln: " @weather-ref=csv" if re.search(r"project=(ex1|zuc|bulk|ex3) ", ln) and "fcode=" in ln else ""
     for i, (ln, fmt) in enumerate(TRACE[:nl]):
         end = ("1231%d" if fmt == "EN" else "3112%d") % endy
-        plan.append({"line": "%s EndDate=%s resultfolder=R/c19_%d" % (ln, end, i), "soil": None})
-    soils = gen_soils(random.Random(ctx.seed), ctx.thorough)
+        plan.append({"line": "%s EndDate=%s resultfolder=R/c19_%d%s" % (ln, end, i, csv_weather(ln)), "soil": None})
+    rnd = random.Random(ctx.seed)
+    write_weather(ex, rnd)
+    # weather with missing radiation: the surface value must be the one a correct normalisation (missing -> 0) gives
+    scen = [("ex1", "EN", "radgap", "109_120", "soilId=075 plotNr=10001"), ("bulk", "EN", "sunonly", "109_121", "soilId=005 plotNr=10002"),
+            ("zuc", "DE", "radgap", "109_121", "soilId=001 plotNr=10002"), ("ex1", "EN", "sunonly", "109_120", "soilId=160 plotNr=10002")]
+    for k, (proj, fmt, folder, fcode, rest) in enumerate(scen if ctx.thorough else scen[:3]):
+        end = ("1231%d" if fmt == "EN" else "3112%d") % (1995 if ctx.thorough else 1982)
+        plan.append({"line": "project=%s WeatherFolder=%s fcode=%s %s Altitude=73 Latitude=52.6732 poligonID=29872 EndDate=%s resultfolder=R/c19_%d "
+                             "@every=%d @weather-ref=csv" % (proj, folder, fcode, rest, end, len(plan), 60 if ctx.thorough else 24),
+                     "soil": None, "weather": folder})
+    soils = gen_soils(rnd, ctx.thorough)
     write_soils(ex, soils)
     for so in soils:
         base = ("project=bulk WeatherFolder=historical soilId=%s fcode=109_120 plotNr=10002 Altitude=73 Latitude=52.6732 poligonID=29872"
                 if so["reader"] == "csv" else
                 "project=ex1 WeatherFolder=historical soilId=%s fcode=109_120 plotNr=10001 Altitude=73 Latitude=52.6732 poligonID=29872") % so["sid"]
-        plan.append({"line": "%s EndDate=12311981 resultfolder=R/c19_%d @every=%d" % (base, len(plan), 60 if ctx.thorough else 16), "soil": so})
+        plan.append({"line": "%s EndDate=12311981 resultfolder=R/c19_%d @every=%d @weather-ref=csv" % (base, len(plan), 60 if ctx.thorough else 16), "soil": so})
     json.dump(plan, open(mark, "w"))
     return ex, plan
 
@@ -227,10 +276,13 @@ def eval_bd(ctx, corr, inits, plan):
 
 def fail_key(line_key, plan):
     """name a failing traced run after its soil FILE: only an input density below 0.567 is the recorded finding F17"""
-    m = re.match(r"envelope:traced-line-(\d+)$", line_key)
-    if not m or int(m.group(1)) >= len(plan) or plan[int(m.group(1))]["soil"] is None:
+    m = re.match(r"(envelope|surface-value):traced-line-(\d+)$", line_key)
+    if not m or int(m.group(2)) >= len(plan):
         return line_key, None
-    so = plan[int(m.group(1))]["soil"]
+    p = plan[int(m.group(2))]
+    if m.group(1) == "surface-value" or p["soil"] is None:
+        return "%s:weather-%s:line-%s" % (m.group(1), p.get("weather", "historical"), m.group(2)), None
+    so = p["soil"]
     lowest = min(so["input_density"])
     desc = "%s-reader:%s" % (so["reader"], "/".join("%s%s-stone%d" % ("bd" + ms if ms is not None else "class%d" % c, "", st) for (u, c, ms, st) in so["hs"]))
     if lowest < 0.567:
@@ -268,6 +320,15 @@ def correspond(ctx):
         c.bump("tag=" + re.sub(r"\d+", "", i["tag"].split("-")[0]) + ("-" + "-".join(i["tag"].split("-")[1:]) if "-" in i["tag"] else ""))
     c.nontrivial = len(seen)
     synth_runs = [x for x in rows if x["k"] == "synthrun"]
+    ctx.extra["weather_reference"] = {"days_checked_against_weather_file": sum(r_.get("weather_ref_days", 0) for r_ in runs),
+                                      "days_with_missing_radiation": sum(r_.get("radiation_missing_days", 0) for r_ in runs),
+                                      "scenario_runs": [{"weather": plan[r_["line"]].get("weather"), "days": r_["days"],
+                                                         "radiation_missing_days": r_.get("radiation_missing_days")} for r_ in runs if plan[r_["line"]].get("weather")]}
+    for x in rows:
+        if x["k"] == "noweatherref":
+            c.mismatches.append({"kind": "weather-file-not-readable-by-the-reference", "line": plan[x["line"]]["line"]})
+    if not any(r_.get("radiation_missing_days", 0) > 0 for r_ in runs):
+        c.mismatches.append({"kind": "coverage-missing", "what": "no traced day with missing global radiation"})
     ctx.extra["traced_runs"] = len(runs)
     ctx.extra["traced_days"] = sum(r_["days"] for r_ in runs)
     ctx.extra["traced_bd_range"] = [min([r_.get("minbd", 9) for r_ in runs] or [0]), max([r_.get("maxbd", 0) for r_ in runs] or [0])]
@@ -288,6 +349,8 @@ def oracle(ctx, search):
         f = Fail(key=key[:160], what=l[:600])
         if soil is not None:
             f["soil_file"] = {k: soil[k] for k in ("reader", "sid", "hs", "input_density", "why")}
-            f["batch_line"] = [p["line"] for p in plan if p["soil"] is soil][0]
+        mm = re.search(r"traced-line-(\d+)", l)
+        if mm and int(mm.group(1)) < len(plan):
+            f["batch_line"] = plan[int(mm.group(1))]["line"]
         fails.append(f)
     return fails
